@@ -3,25 +3,25 @@ From Coq Require Import ZArith List Bool Arith Lia.
 From QV Require Import Base.Mat Base.Zi C15.MatDefs C15.Model C15.MatAlg C15.Proofs C15.Proofs2.
 Import ListNotations.
 
-(* h @ S for TFIM-like forms (at most one factor per qubit and term) *)
+(* HISTORICAL: the pre-repair application was right only for forms with at most one factor per qubit and term *)
 Theorem apply_partial n c f ms S :
   Forall (smono_ok n) ms -> smonos_op n ms = denote n f ->
   one_factor_per_qubit (fst (terms_of ms)) = true ->
   (fst (terms_of ms) <> [] \/ snd (terms_of ms) <> zi0) ->
   wfm (2 ^ n) c S ->
-  apply_gates n (terms_of ms) S = apply_spec n f S.
+  apply_gates_prefix n (terms_of ms) S = apply_spec n f S.
 Proof.
   intros Hm E Hd Hne HS. unfold apply_spec.
   rewrite (apply_gates_ok n c); try assumption; [|now apply terms_of_qs].
   now rewrite (terms_prod_ok n f ms).
 Qed.
 
-(* with the factor order repaired: every form *)
-Theorem apply_fixed n c f ms S :
+(* h @ S for every form (SymbolicTerm.__call__ applies the factors last-to-first) *)
+Theorem apply_full n c f ms S :
   Forall (smono_ok n) ms -> smonos_op n ms = denote n f ->
   (fst (terms_of ms) <> [] \/ snd (terms_of ms) <> zi0) ->
   wfm (2 ^ n) c S ->
-  apply_gates_fixed n (terms_of ms) S = apply_spec n f S.
+  apply_gates n (terms_of ms) S = apply_spec n f S.
 Proof.
   intros Hm E Hne HS. unfold apply_spec.
   rewrite (apply_gates_fixed_ok n c) by assumption. now rewrite (terms_prod_ok n f ms).
@@ -32,11 +32,23 @@ Theorem expectation_partial n f ms psi rho :
   one_factor_per_qubit (fst (terms_of ms)) = true ->
   (fst (terms_of ms) <> [] \/ snd (terms_of ms) <> zi0) ->
   wfm (2 ^ n) 1 psi -> wfm (2 ^ n) (2 ^ n) rho ->
+  sym_expect_state_prefix n (terms_of ms) psi = dense_expect_state (denote n f) psi /\
+  sym_expect_dm_prefix n (terms_of ms) rho = dense_expect_dm (denote n f) rho.
+Proof.
+  intros Hm E Hd Hne Hp Hr. unfold sym_expect_state_prefix, sym_expect_dm_prefix, dense_expect_state, dense_expect_dm.
+  rewrite (apply_partial n 1 f ms psi), (apply_partial n (2 ^ n) f ms rho) by assumption.
+  split; reflexivity.
+Qed.
+
+Theorem expectation_full n f ms psi rho :
+  Forall (smono_ok n) ms -> smonos_op n ms = denote n f ->
+  (fst (terms_of ms) <> [] \/ snd (terms_of ms) <> zi0) ->
+  wfm (2 ^ n) 1 psi -> wfm (2 ^ n) (2 ^ n) rho ->
   sym_expect_state n (terms_of ms) psi = dense_expect_state (denote n f) psi /\
   sym_expect_dm n (terms_of ms) rho = dense_expect_dm (denote n f) rho.
 Proof.
-  intros Hm E Hd Hne Hp Hr. unfold sym_expect_state, sym_expect_dm, dense_expect_state, dense_expect_dm.
-  rewrite (apply_partial n 1 f ms psi), (apply_partial n (2 ^ n) f ms rho) by assumption.
+  intros Hm E Hne Hp Hr. unfold sym_expect_state, sym_expect_dm, dense_expect_state, dense_expect_dm.
+  rewrite (apply_full n 1 f ms psi), (apply_full n (2 ^ n) f ms rho) by assumption.
   split; reflexivity.
 Qed.
 
